@@ -31,6 +31,8 @@ Fixpoint to_item (s : schema) (v : val) {struct s} : item :=
   | SBBytes, VBytes b =>
       if N.of_nat (length b) <=? 64 then IBytes b else IBytesChunked (chunk64 (length b) b)
   | SNamed _ s', v' => to_item s' v'
+  | SArrOpt fs o, VAlt O (VList l) => IArray true (to_items_sl fs l)
+  | SArrOpt fs o, VAlt (S O) (VList (x :: l)) => IArray true (to_items_sl fs l ++ [to_item o x])
   | _, _ => junk
   end
 with to_items_sl (fs : slist) (l : list val) {struct fs} : list item :=
@@ -77,6 +79,7 @@ Fixpoint no_indef_sites (s : schema) : bool :=
   | SMapOf _ _ k v => no_indef_sites k && no_indef_sites v
   | SChoice alts | STagChoice alts => nis_cl alts
   | SArrAny _ | SBBytes => false
+  | SArrOpt fs o => nis_sl fs && no_indef_sites o
   | _ => true
   end
 with nis_sl (fs : slist) : bool := match fs with SNil => true | SCons s r => no_indef_sites s && nis_sl r end
@@ -105,6 +108,8 @@ Fixpoint sets_emitted (s : schema) (v : val) {struct s} : bool :=
   | STagChoice alts, VAlt i v' => se_cl alts i v'
   | SArrAny s', VAlt _ (VList l) => forallb (sets_emitted s') l
   | SNamed _ s', v' => sets_emitted s' v'
+  | SArrOpt fs o, VAlt O (VList l) => se_sl fs l
+  | SArrOpt fs o, VAlt (S O) (VList (x :: l)) => se_sl fs l && sets_emitted o x
   | _, _ => true
   end
 with se_sl (fs : slist) (l : list val) {struct fs} : bool :=
